@@ -376,6 +376,14 @@ class Project:
         if isinstance(e, ast.Name):
             return self.const_value(m, e.id)
         if isinstance(e, ast.Attribute):
+            if e.attr == "pattern" and isinstance(e.value, ast.Name):
+                # NAME.pattern of a compiled regex constant: the (foldable) pattern it was compiled from
+                tgt = self.resolve_name(m, e.value.id)
+                dm, dn = (tgt[1], tgt[2]) if isinstance(tgt, tuple) and tgt and tgt[0] == "const" else (m, e.value.id)
+                d = dm.defs.get(dn)
+                v = getattr(d, "value", None)
+                if isinstance(v, ast.Call) and U(v.func) == "re.compile" and v.args:
+                    return self.fold(dm, v.args[0])
             r = self.resolve(m, e)
             if isinstance(r, tuple) and r[0] == "const":
                 return self.const_value(r[1], r[2])
